@@ -148,9 +148,26 @@ class Ctx:
             self.broken.append({'kind': 'obligation', 'name': f, 'detail': tail[-3000:], 'candidates': []})
         for p in probs:
             self.broken.append({'kind': 'obligation', 'name': 'lint', 'detail': p, 'candidates': []})
+        if res.ok and not probs and self.tier == 'thorough' and not os.environ.get('VERIF_NO_COQCHK'):
+            self.coqchk(target)
         self.log('prove %s: %s (%d files, %d recompiled, %.1fs, %d obligations)' % (
             target, 'ok' if res.ok and not probs else 'BROKEN', len(cone), len(res.compiled), res.seconds, len(obl)))
         return res.ok and not probs
+
+    def coqchk(self, target):
+        """Thorough tier: re-check the compiled cone with the independent checker and record its context summary."""
+        import subprocess
+        mod = 'PKProps.' + Path(target).stem
+        t0 = time.time()
+        r = subprocess.run(['timeout', '1800', 'coqchk', '-silent', '-o', '-Q', 'theories', 'PK', '-Q', 'gen', 'PKGen',
+                            '-Q', 'props', 'PKProps', mod], cwd=str(coqbuild.COQ), capture_output=True, text=True)
+        out = r.stdout + r.stderr
+        summary = ' '.join(out[out.find('CONTEXT SUMMARY'):].split()) if 'CONTEXT SUMMARY' in out else out[-600:]
+        self.cov['coqchk'] = {'module': mod, 'rc': r.returncode, 'seconds': round(time.time() - t0, 1), 'summary': summary[:1500]}
+        self.cov.setdefault('trusted_extra', []).append('coqchk -o %s: rc=%d; %s' % (mod, r.returncode, summary[:600]))
+        self.log('coqchk %s rc=%d (%.0fs)' % (mod, r.returncode, time.time() - t0))
+        if r.returncode != 0:
+            self.broken.append({'kind': 'obligation', 'name': 'coqchk ' + mod, 'detail': out[-2000:], 'candidates': []})
 
     # ------------------------------------------------------------------ tie K
     def ensure_built(self, text):
